@@ -17,6 +17,8 @@ for d in sorted(glob.glob("/verif/seeded/*/")):
         if t.startswith("OK") or "=> OK" in t: return "MISSED"
         return t[:40] or "?"
     last = verdict(latest) if latest else ''
+    if m.get("caught_by") and not last.startswith("caught"):
+        last = "caught by " + m["caught_by"].split(":")[0].split(" (")[0] + " (not by this property's own check)"
     if m.get("neutralised"):
         last = "no longer a defect: " + m["neutralised"].split(":")[0]
     rows.append(f"| {name} | {what[:170]} | {needs[:150]} | {verdict(first)} | {last} |")
